@@ -49,7 +49,7 @@ func init() {
 		CaseTimeout: 240 * time.Second,
 		Run:         runC14,
 		Floors: func(tier string) map[string]int {
-			m := map[string]int{"syncs_judged": 300, "uploads_seen": 150, "restores_seen": 20, "converged_identical": 80, "adopted_service": 20, "hwm_samples": 1000, "client_file": 20, "client_cloud": 20, "batches_over_256": 2, "lost_ack_then_converged": 4, "snapshot_uploads": 20, "background_converged": 4, "fresh_primary_adopted_existing_service": 2, "background_outage_batches": 2}
+			m := map[string]int{"syncs_judged": 300, "uploads_seen": 150, "restores_seen": 20, "converged_identical": 80, "adopted_service": 20, "hwm_samples": 1000, "client_file": 20, "client_cloud": 20, "batches_over_256": 2, "lost_ack_then_converged": 4, "snapshot_uploads": 20, "background_converged": 4, "fresh_primary_adopted_existing_service": 2, "background_outage_batches": 2, "commit_inside_snapshot_upload": 1}
 			for _, r := range c14Relations {
 				m["rel_"+r] = 3
 			}
@@ -293,6 +293,9 @@ type c14Rec struct {
 	maxAcked map[string]uint64
 	fault    string
 	outage   atomic.Bool // the service is unreachable: every call fails at once
+	// afterSnapshot, if set, runs once inside WriteTx after the service has stored
+	// and acknowledged a snapshot upload and before LiteFS sees the answer
+	afterSnapshot func()
 }
 
 func (r *c14Rec) URL() string { return r.inner.URL() }
@@ -365,6 +368,15 @@ func (r *c14Rec) WriteTx(ctx context.Context, name string, rd io.Reader) (ltx.TX
 	if err == nil && fault == "wrap-lost-ack" {
 		err = errors.New("scripted: acknowledgement lost")
 		hwm = 0
+	}
+	if err == nil && e.Snapshot {
+		r.mu.Lock()
+		f := r.afterSnapshot
+		r.afterSnapshot = nil
+		r.mu.Unlock()
+		if f != nil {
+			f()
+		}
 	}
 	if err != nil {
 		e.Err = err.Error()
@@ -853,7 +865,11 @@ func runC14(c *core.Case) {
 		return true
 	}
 
-	if background && c.Index%22 == 10 {
+	snapRace := background && c.Index%44 == 32 // a commit lands inside the acknowledged snapshot upload
+	if snapRace {
+		P.rec.outage.Store(true) // nothing is uploaded before the race is armed
+	}
+	if background && c.Index%22 == 10 && !snapRace {
 		// A service that already holds a chain for the database (left by an earlier
 		// primary) and a fresh primary running the background loop: the application
 		// creates the (still empty) file, a stream round runs, then the first local
@@ -944,7 +960,7 @@ func runC14(c *core.Case) {
 	}
 	hist = append(hist, "create+commits")
 	if background {
-		c14Background(c, cl, P, svc, led, commitN, judgeService, checkHWM, detail, bigBackground)
+		c14Background(c, cl, P, svc, led, commitN, judgeService, checkHWM, detail, bigBackground, snapRace)
 		return
 	}
 	if !converge(P, "initial (service empty)", 3, "never") {
@@ -1220,7 +1236,7 @@ func runC14(c *core.Case) {
 // on the primary's own history throughout, so nothing may ever be restored and
 // no committed transaction may be lost.
 func c14Background(c *core.Case, cl *cluster.Cluster, P *c14Node, svc c14Service, led *ledger,
-	commitN func(*c14Node, int) error, judgeService func(string) (c14Chain, bool), checkHWM func() bool, detail func(map[string]any) map[string]any, big bool) {
+	commitN func(*c14Node, int) error, judgeService func(string) (c14Chain, bool), checkHWM func() bool, detail func(map[string]any) map[string]any, big, snapRace bool) {
 	c.Count("background_cases", 1)
 	noRestore := func(ctx string) bool {
 		for _, e := range P.rec.since(0) {
@@ -1317,6 +1333,28 @@ func c14Background(c *core.Case, cl *cluster.Cluster, P *c14Node, svc c14Service
 		c.Count("background_outage_batches", 1)
 		finish("outage-batch")
 		return
+	}
+	if snapRace {
+		// The database is not on the service yet. The loop uploads a snapshot; after
+		// the service stored and acknowledged it, and before LiteFS sees the answer,
+		// the application commits one more transaction. The position LiteFS records
+		// for the service must be the snapshot's, not the database's newest.
+		done := make(chan error, 1)
+		P.rec.mu.Lock()
+		P.rec.afterSnapshot = func() { done <- commitN(P, 1) }
+		P.rec.mu.Unlock()
+		P.rec.outage.Store(false)
+		select {
+		case err := <-done:
+			if err != nil {
+				c.Violate("C14/commit-failed", "commit inside the acknowledged snapshot upload: "+err.Error(), detail(nil))
+				return
+			}
+		case <-time.After(40 * time.Second):
+			c.Inconclusive("background loop uploaded no snapshot within the watchdog")
+			return
+		}
+		c.Count("commit_inside_snapshot_upload", 1)
 	}
 	for burst := 0; burst < 4; burst++ {
 		if err := commitN(P, 1+c.Rng.IntN(5)); err != nil {
